@@ -394,6 +394,26 @@ def check_group_indexing(run, tree):
             run.violated(construct, "src/osyris/core/datagroup.py", "raises %s" % e, "group[%s]" % label)
         except ERR as e:
             run.unresolved(construct, "src/osyris/core/datagroup.py", "cannot fold: %s" % e)
+    # member names the class itself compares against get a member of that name: name-dependent branches are entered
+    ci = tree.cls(DG_Q)
+    special = sorted({c.value for fi in ci.methods.values() for n in ast.walk(fi.node) if isinstance(n, ast.Compare)
+                      for c in [n.left] + n.comparators if isinstance(c, ast.Constant) and isinstance(c.value, str)})
+    for name in special:
+        for label, meth, idx in (("__getitem__", "__getitem__", RawTok("perm", (4,))), ("sortby", "sortby", RawTok("perm", (4,)))):
+            construct = "%s.%s[member named %r]" % (DG_Q, label, name)
+            try:
+                g = make_group(tree, hooks)
+                call_method(tree, hooks, g, "__setitem__", name, A("special", 4, "K"))
+                res = call_method(tree, hooks, g, meth, idx)
+                cont = (res if meth == "__getitem__" else g)._attrs["_container"]
+                m = cont.get(name)
+                ok = m is not None and member_origin(tree, hooks, m) == ("idx", "special", "perm") and set(cont) == {"a", "b", "v", name}
+                run.ob(construct, ok, "src/osyris/core/datagroup.py", "member %r after %s: %s" % (name, label, member_origin(tree, hooks, m) if m is not None else "absent"),
+                       "a member with a particular name is skipped by group[...] / sortby", nontrivial=False)
+            except (Raised, ProgramRaised) as e:
+                run.violated(construct, "src/osyris/core/datagroup.py", "raises %s" % e, "group with a member named %r" % name)
+            except ERR as e:
+                run.unresolved(construct, "src/osyris/core/datagroup.py", "cannot fold: %s" % e)
     # sortby
     for label, key, want_key in (("by member name", "b", ("argsort", "b")), ("by index list", RawTok("perm", (4,)), "perm")):
         construct = "%s.sortby[%s]" % (DG_Q, label)
